@@ -451,7 +451,7 @@ def run(run):
                 scenarios.append({'mode': mode, 'threads': threads,
                                   'final': final})
     bound = 2 if thorough else 1
-    budget = 400 if thorough else 40
+    budget = 1500 if thorough else 60
     for i, cfg in enumerate(scenarios):
         if not run.mine(i):
             continue
@@ -459,7 +459,7 @@ def run(run):
         if len(run.samples) < 2:
             run.sample({'baton_scenario': cfg})
     # ---- baton: random walks on larger scenarios ------------------------------
-    for i in range(200 if thorough else 24):
+    for i in range(1200 if thorough else 32):
         if not run.mine(i):
             continue
         cfg = {'mode': rng.choice(('plain', 'compressed', 'encrypted')),
@@ -476,7 +476,7 @@ def run(run):
             run.seen('baton.distinct_schedules', 'w%d:%s' % (
                 i, ','.join(sched.decisions)))
     # ---- stress ------------------------------------------------------------------
-    for i in range(160 if thorough else 16):
+    for i in range(640 if thorough else 24):
         if not run.mine(i):
             continue
         n_threads = rng.randrange(2, 5)
